@@ -35,6 +35,7 @@ type bindingRequest struct {
 	transactionID   [stun.TransactionIDSize]byte
 	destination     netip.AddrPort
 	networkType     NetworkType // Transport the request was sent over; destination alone omits it.
+	source          Candidate   // Local candidate the request was sent from.
 	isUseCandidate  bool
 	nominationValue *uint32 // Tracks nomination value for renomination requests
 }
@@ -1630,6 +1631,7 @@ func (a *Agent) sendBindingRequest(msg *stun.Message, local, remote Candidate) {
 		transactionID:   msg.TransactionID,
 		destination:     remote.addrPort(),
 		networkType:     remote.NetworkType(),
+		source:          local,
 		isUseCandidate:  msg.Contains(stun.AttrUseCandidate),
 		nominationValue: nominationValue,
 	})
